@@ -134,6 +134,14 @@ def oracle(ck, tier, deep):
         if X[oo] != 0 or Y[oo] != 0 or X[oo[0], min(cols - 1, oo[1] + 1)] < 0 or (oo[0] > 0 and Y[oo[0] - 1, oo[1]] != 1):
             ck.violation(dict(site="index_coords", clause="origin"), dict(shape=[rows, cols], origin=list(o)),
                          "(0,0) is not at the requested origin, or the axes do not point right/up")
+    # without an origin the pole is the centre pixel (rows // 2, cols // 2) — of non-square frames too
+    for (rows, cols) in ((5, 9), (12, 4), (1, 7), (8, 8), (7, 2), (3, 30)):
+        ck.count(("S.idx-default", rows, cols), suite="S.coords")
+        X, Y = polar.index_coords(np.zeros((rows, cols)))
+        X2, Y2 = polar.index_coords(np.zeros((rows, cols)), origin=(rows // 2, cols // 2))
+        if not (np.array_equal(X, X2) and np.array_equal(Y, Y2)) or X[rows // 2, cols // 2] != 0 or Y[rows // 2, cols // 2] != 0:
+            ck.violation(dict(site="index_coords", clause="default-origin"), dict(shape=[rows, cols]),
+                         f"index_coords of a {rows}x{cols} frame without an origin does not put (0, 0) at pixel {(rows // 2, cols // 2)}")
     # the pole may lie on or beyond the last row / column, at fractional positions too: x = col − ox, y = oy − row everywhere
     for _ in range(n // 3):
         rows, cols = (int(v) for v in rng.integers(2, 30, size=2))
